@@ -261,11 +261,18 @@ type handle struct {
 }
 
 type item struct {
-	gap  bool // at some moment since it was sent no handle of its key was open: it may have been dropped
+	from string // local address of the sending socket (datagrams)
+	gap  bool   // at some moment since it was sent no handle of its key was open: it may have been dropped
 	id   int
 	key  int
 	conn net.Conn // stream client side
 	ok   bool
+}
+
+type addrObs struct {
+	item     int
+	addr     net.Addr
+	atReturn string
 }
 
 type scenario struct {
@@ -279,6 +286,7 @@ type scenario struct {
 	items    []*item
 	inOp     map[int]string    // thread -> current op ("" if between ops / done)
 	got      map[int]bool      // items received by some accept/read call
+	addrSeen []addrObs         // source addresses returned by packet reads
 	foreign  map[int]io.Closer // foreign sockets holding the addresses of the keys whose listen must fail
 	waitKey  map[int]int       // thread -> key of the handle it is waiting on in accept/read (0 = none)
 	openCnt  map[int]int       // key -> handles listened and not yet closed (driver-side estimate, only used to avoid useless waiting)
@@ -456,10 +464,12 @@ func (sc *scenario) runThread(t int, script []op, s *sched, wg *sync.WaitGroup) 
 				}
 			} else {
 				buf := make([]byte, 2048)
-				n, _, err := hnd.pc.ReadFrom(buf)
+				n, raddr, err := hnd.pc.ReadFrom(buf)
 				if err == nil {
 					sc.mu.Lock()
 					sc.got[parseItem(string(buf[:n]))] = true
+					// the address handed out with a datagram must be, and remain, the sender's
+					sc.addrSeen = append(sc.addrSeen, addrObs{item: parseItem(string(buf[:n])), addr: raddr, atReturn: fmt.Sprint(raddr)})
 					sc.mu.Unlock()
 					sc.emit(map[string]any{"ev": "AcceptEnd", "t": t, "h": o.H, "res": "item", "item": parseItem(string(buf[:n]))})
 				} else if errors.Is(err, net.ErrClosed) {
@@ -510,6 +520,7 @@ func (sc *scenario) connect(k int) {
 	} else {
 		c, err := net.Dial("udp", sc.addrs[k])
 		if err == nil {
+			it.from = c.LocalAddr().String()
 			_, err = c.Write(msg)
 			it.ok = err == nil
 			c.Close()
@@ -727,6 +738,20 @@ func (sc *scenario) finish(nThreads int, wg *sync.WaitGroup, watchdog time.Durat
 		it.conn.Close()
 		sc.emit(map[string]any{"ev": "ItemFate", "item": it.id, "fate": fate, "by": by})
 	}
+	// source addresses returned by packet reads: equal to the sender's address when returned, and still so now
+	sc.mu.Lock()
+	for _, o := range sc.addrSeen {
+		sender := ""
+		for _, it := range sc.items {
+			if it.id == o.item {
+				sender = it.from
+			}
+		}
+		if sender != "" {
+			sc.emit(map[string]any{"ev": "AddrCheck", "item": o.item, "sender": sender, "atReturn": o.atReturn, "atEnd": fmt.Sprint(o.addr)})
+		}
+	}
+	sc.mu.Unlock()
 	// goroutines of the shared listeners must be gone (grace period)
 	n, states := 0, ""
 	for i := 0; i < 100; i++ {
